@@ -913,12 +913,16 @@ Definition jt_by_rules (t0 : jt) (m : cmap) : jt :=
 
 (* makeTypeFromRuleSet; [pos] = Begin() of the ObjectEnd event *)
 Definition make_type_from_rule_set (d : ndata) (r : rsl) : R ndata :=
-  let m := rs_cs r in
-  if Nat.eqb (length m) 0 then err ErrEmptyRuleSet
+  let m0 := rs_cs r in
+  if Nat.eqb (length m0) 0 then err ErrEmptyRuleSet
   else
     do g <- types_gen d;
-    let an := RA (of_string "object") [] [] [] (map (fun e => (ctype_name (ce_t e), ast_of (ce_v e))) m) g in
-    let w := RObj (written_props m) in
+    (* the AST and the rules as written keep the flags that say nothing *)
+    let an := RA (of_string "object") [] [] [] (map (fun e => (ctype_name (ce_t e), ast_of (ce_v e))) m0) g in
+    let w := RObj (written_props m0) in
+    (* fixes a4b2d4a, de3c65c: "const: false" / "nullable: false" are dropped before the rule-set is looked at; nothing but such flags is an empty rule-set *)
+    let m := filter (fun e => negb (is_false_entry e)) m0 in
+    if Nat.eqb (length m) 0 then err ErrEmptyRuleSet else
     let user :=
         match type_bytes m with
         | Some v => (Nat.eqb (length m) 1 && is_user_type_name (unquote v))%bool
@@ -927,7 +931,11 @@ Definition make_type_from_rule_set (d : ndata) (r : rsl) : R ndata :=
     if user then types_add d true an w
     else
       let declared := match type_bytes m with Some v => unquote v | None => [] end in
-      let t0 := match type_bytes m with Some _ => rs_jt r | None => jt_by_rules (rs_jt r) m end in
+      (* fix 9688759: "enum" is no JSON type - like without the type rule, the rules say which JSON types the rule-set describes *)
+      let t0 := match type_bytes m with
+                | Some v => if is "enum" (unquote v) then jt_by_rules (rs_jt r) m else rs_jt r
+                | None => jt_by_rules (rs_jt r) m
+                end in
       do c <- catch (nd_lb d) (compile_mixed t0 m);      (* CompileBasic(&typ, false) *)
       (* checkCompatibilityOfConstraints *)
       do _ <-
